@@ -77,6 +77,9 @@ THEOREMS = [
     'C01.setAbcDeg_eq_setOp', 'C01.define_refuses_iff', 'C01.readAs_refuses_iff',
     # arrays of points and their shapes
     'C01.conv_rows', 'C01.conv_rows_inverse', 'C01.insideAll_iff_rel', 'C01.convShape_ok_iff',
+    # the pair theorem on the object with its cache; the crystal-family constructors (regenerated, refusals, rebuild, right angles)
+    'C01.gen_family_ctors_eq_model', 'C01.gen_glue_pins', 'C01.define_eq_setOp', 'C01.obj_rebuild_any_pair',
+    'C01.ctor_refuses_iff', 'C01.ctor_rebuild_any', 'C01.define_right_angles',
 ]
 PARTIAL = {
     'angles_in_degrees': 'read-back of lengths and angles is proved in squared / cosine form over every ordered field '
@@ -436,7 +439,7 @@ def translate():
     A('variable {K : Type}')
     A('')
     A('section formulas')
-    A('variable [Zero K] [One K] [OfNat K 180] [Neg K] [Add K] [Sub K] [Mul K] [Div K] [LT K] [LE K] [DecidableLT K] [DecidableLE K]')
+    A('variable [Zero K] [One K] [OfNat K 180] [OfNat K 90] [OfNat K 120] [Neg K] [Add K] [Sub K] [Mul K] [Div K] [LT K] [LE K] [DecidableLT K] [DecidableLE K]')
     A('  [DecidableEq K]')
     A('')
     base = {}
@@ -868,6 +871,64 @@ def translate():
         wr.append((wname, ast.unparse(wb[-1].value)))
     A('/-- `System.scale` / `System.unscale`: what they return (nothing but deprecation warnings before). -/')
     A('def systemWrappers : List (String × String) := [' + ', '.join(f'("{n_}", "{c_}")' for n_, c_ in wr) + ']')
+    # the crystal-family constructors: their own guards (ValueError) and the keywords handed to cls(...)
+    class TrC(Tr):
+        def tr(self, n):
+            if isinstance(n, ast.Constant) and not isinstance(n.value, bool) and n.value in (90, 120):
+                return str(int(n.value)), 'K'
+            return super().tr(n)
+    for fname in ('cubic', 'hexagonal', 'tetragonal', 'trigonal', 'orthorhombic', 'monoclinic', 'triclinic'):
+        fa = meths[fname].args
+        if fa.vararg or fa.kwarg or fa.kwonlyargs or fa.defaults or [d_ for d_ in meths[fname].decorator_list if ast.unparse(d_) != 'classmethod'] \
+                or not meths[fname].decorator_list or fa.args[0].arg != 'cls':
+            fail(f'{fname}: not a plain classmethod without defaults')
+        pn = [x.arg for x in fa.args[1:]]
+        tc = TrC({k_: (k_, 'K') for k_ in pn})
+        fb = body(fname)
+        guards = []
+        for st in fb[:-1]:
+            if not (isinstance(st, ast.If) and not st.orelse and len(st.body) == 1 and isinstance(st.body[0], ast.Raise)
+                    and 'ValueError' in ast.unparse(st.body[0])):
+                fail(f'{fname}: statement before the return is not `if …: raise ValueError`')
+            tests = st.test.values if isinstance(st.test, ast.BoolOp) and isinstance(st.test.op, ast.Or) else [st.test]
+            if isinstance(st.test, ast.BoolOp) and not isinstance(st.test.op, ast.Or):
+                fail(f'{fname}: guard is not a disjunction')
+            guards.append('(' + ' || '.join(_cmp(c_, tc, fail) for c_ in tests) + ')')
+        rv = fb[-1].value
+        if not (isinstance(rv, ast.Call) and ast.unparse(rv.func) == 'cls' and not rv.args
+                and [k_.arg for k_ in rv.keywords] == ['a', 'b', 'c', 'alpha', 'beta', 'gamma']):
+            fail(f'{fname}: does not return cls(a=, b=, c=, alpha=, beta=, gamma=)')
+        vals = []
+        for k_ in rv.keywords:
+            e, ty = tc.tr(k_.value)
+            if ty != 'K':
+                fail(f'{fname}: keyword {k_.arg} is not a scalar')
+            vals.append(e)
+        A(f'/-- `Box.{fname}`: `none` = its own ValueError, else what it hands to `Box(**kwargs)` (no origin: the default). -/')
+        A(f'def {fname}Src ({" ".join(pn)} : K) : Option (Params K) :=\n  '
+          + ''.join(f'if {g} = true then none else\n  ' for g in guards)
+          + 'some (.abc ' + ' '.join(vals) + ' ⟨0, 0, 0⟩)')
+    # avect / bvect / cvect and Plane.__init__
+    vg = []
+    for nm_ in ('avect', 'bvect', 'cvect'):
+        m_ = re.fullmatch(r'self\.vects\[(\d)\]', ast.unparse(ret_expr(nm_)))
+        if m_ is None:
+            fail(f'{nm_} is not self.vects[i]')
+        vg.append((nm_, int(m_.group(1))))
+    A('/-- `avect bvect cvect` = `self.vects[i]` (a row of a copy). -/')
+    A('def vectGetters : List (String × Nat) := [' + ', '.join(f'("{n_}", {i_})' for n_, i_ in vg) + ']')
+    pinit = [n for n in pcls[0].body if isinstance(n, ast.FunctionDef) and n.name == '__init__']
+    pi_ok = len(pinit) == 1 and [a_.arg for a_ in pinit[0].args.args] == ['self', 'normal', 'point'] and not pinit[0].args.defaults \
+        and [ast.unparse(st) for st in pinit[0].body if not (isinstance(st, ast.Expr) and isinstance(st.value, ast.Constant))] \
+        == ['self.normal = normal', 'self.point = point']
+    A('/-- `Plane(normal, point)` stores its two arguments through the property setters, in that order. -/')
+    A(f'def planeInitNormalThenPoint : Bool := {"true" if pi_ok else "false"}')
+    ibody = body('__init__')
+    init_disp = len(ibody) == 4 and ast.unparse(ibody[3]) == (
+        "if len(kwargs) > 0:\n    if 'model' in kwargs:\n        if len(kwargs) > 1:\n            raise ValueError('model cannot be given with other parameters')\n"
+        "        self.model(kwargs['model'])\n    else:\n        self.set(**kwargs)")
+    A('/-- `Box(**kwargs)`: no keywords = the unit cell allocated above; `model` alone goes to `model()`; everything else to `set(**kwargs)`. -/')
+    A(f'def initHandsKeywordsToSet : Bool := {"true" if init_disp else "false"}')
     A('')
     A('end formulas')
     A('')
@@ -2347,6 +2408,32 @@ def _ext_correspond(ctx, rng, n):
             lines.append(f'angle {i} {j} {cm.fr(n1)} {cm.fr(n2)}')
             checks.append(('angle', float(ang), nm))
         jobs.append((lines, checks, desc))
+    # --- the crystal-family constructors: own refusals and the keywords handed to Box(**kwargs) ---------------------------
+    CT = {'cubic': 'a', 'hexagonal': 'ac', 'tetragonal': 'ac', 'trigonal': 'aA', 'orthorhombic': 'abc', 'monoclinic': 'abcB',
+          'triclinic': 'abcABG'}
+    for it in range(n):
+        name = rng.choice(sorted(CT))
+        lens = [_pos_dy(rng) for _ in range(3)]
+        if rng.random() < 0.45:
+            lens[rng.choice([1, 2])] = lens[0]                    # equal lattice constants: the guards of the constructors
+        if rng.random() < 0.15:
+            lens[1] = lens[2]                                     # b == c: in no guard
+        angs = [rng.choice([60.0, 75.5, 90.0, 90.0, 100.25, 119.5, 120.0, 120.5, 89.5, 45.0]) for _ in range(3)]
+        if rng.random() < 0.3:
+            angs[rng.choice([1, 2])] = angs[0]
+        take = {'a': lens[0], 'b': lens[1], 'c': lens[2], 'A': angs[0], 'B': angs[1], 'G': angs[2]}
+        args = [take[ch] for ch in CT[name]]
+        if rng.random() < 0.3:
+            args = [int(x) if float(x).is_integer() else x for x in args]
+        try:
+            with warnings.catch_warnings():
+                warnings.simplefilter('ignore')
+                bx = getattr(am.Box, name)(*args)
+            impl = bx
+        except Exception as e:  # noqa
+            impl = _cls_ext(e)
+        jobs.append(([f'ctor {name} ' + ' '.join(cm.fr(float(x)) for x in args)], [('ctor', impl, f'Box.{name}({", ".join(map(repr, args))})')],
+                     f'Box.{name}'))
     outs = ctx.driver.ask_many([ln for lines, _, _ in jobs for ln in lines])
     pos = 0
     for lines, checks, desc in jobs:
@@ -2360,6 +2447,33 @@ def _ext_correspond(ctx, rng, n):
                     ctx.disagree('ext:set', f'{desc}: model {out}', rp)
                 continue
             ctx.stats.case('ext:' + kind, (desc, line), nontrivial=True, sample={'line': line[:200], 'cell': desc})
+            if kind == 'ctor':
+                if out.startswith('err:') or isinstance(impl, str):
+                    # the model has the constructor's own refusals; an unrealisable / out-of-range angle triple is refused later
+                    # (set_abc / set_lengths), which the model reports through the abc definition
+                    if out.startswith('err:') and impl != out:
+                        ctx.disagree('ctor:not-refused', f'{chk[2]}: implementation {"accepted" if not isinstance(impl, str) else impl}, '
+                                     f'model {out} (the constructor refuses these arguments itself)', rp)
+                    elif not out.startswith('err:'):
+                        vals = [float(x) for x in cm.unfrs(out[3:])]
+                        try:
+                            with warnings.catch_warnings():
+                                warnings.simplefilter('ignore')
+                                am.Box(a=vals[0], b=vals[1], c=vals[2], alpha=vals[3], beta=vals[4], gamma=vals[5])
+                            ctx.disagree('ctor:refused', f'{chk[2]}: implementation {impl}, but the model accepts and Box(a=…) of its '
+                                         f'keywords {vals[:6]} is accepted too', rp)
+                        except Exception as e2:  # noqa
+                            if _cls_ext(e2) != impl:
+                                ctx.disagree('ctor:error', f'{chk[2]}: {impl}, Box(a=…) of the keywords the model passes: {_cls_ext(e2)}', rp)
+                    continue
+                vals = [float(x) for x in cm.unfrs(out[3:])]
+                with warnings.catch_warnings():
+                    warnings.simplefilter('ignore')
+                    ref = am.Box(a=vals[0], b=vals[1], c=vals[2], alpha=vals[3], beta=vals[4], gamma=vals[5], origin=vals[6:9])
+                if impl.vects.tobytes() != ref.vects.tobytes() or impl.origin.tobytes() != ref.origin.tobytes():
+                    ctx.disagree('ctor:cell', f'{chk[2]} has vects {impl.vects.tolist()} origin {impl.origin.tolist()}; the model passes '
+                                 f'a, b, c, alpha, beta, gamma = {vals[:6]}, origin {vals[6:9]} to Box(**kwargs): vects {ref.vects.tolist()}', rp)
+                continue
             if kind == 'shape':
                 if impl != out:
                     ctx.disagree(f'shape:{line.split()[1]}', f'{desc}.{chk[2]}: implementation {impl!r}, model {out!r}', rp)
